@@ -176,6 +176,16 @@ struct Corpus {
         // sequence A ; B
         for (int i = 1; i <= s - 1; i++) { int j = s - i; if (j < 1 || i + j != s) continue; if (i > 1) continue; for (auto &A : (*lists)[i]) for (auto &B : (*lists)[j]) { if (out.size() > (thorough ? 3000000u : 400000u)) break; out.push_back("{ " + A + "; " + B + " }"); } }
       }
+      // the same statements in a program whose procedures all return (main included): exercises epilogues and the exit stub
+      for (int s = 1; s <= std::min(maxS, 4); s++) {
+        auto lst = lists;
+        add({"F3r:stmt-return:size" + std::to_string(s), (uint64_t)(*lists)[s].size(), [lst, s](uint64_t i, std::string *shape) {
+               if (shape) { const std::string &t = (*lst)[s][i]; *shape = "stmt-return:" + t.substr(0, t.find(' ')); }
+               return "val c = 3; var g; var h; var n; array a[4];\nproc cnt() is n := n + 1\nfunc w(val q) is var k; { k := q + 1; return k }\n"
+                      "proc t(val p) is var x; var i; var y;\n{ x := 5; i := 2; y := 0; g := 6; h := 0; n := 0; a[0] := 0; a[1] := 0; a[2] := 0; a[3] := 0;\n  " + (*lst)[s][i] +
+                      ";\n  1(w(x) + '0', 0); 1(g + '0', 0); 1(n + '0', 0) }\nproc main() is { t(1); t(2) }\n";
+             }});
+      }
       for (int s = 1; s <= maxS; s++) {
         auto lst = lists;
         add({"F3:stmt:size" + std::to_string(s), (uint64_t)(*lists)[s].size(), [lst, s](uint64_t i, std::string *shape) {
